@@ -438,3 +438,46 @@ mod test {
         );
     }
 }
+
+/// Verification hooks (compiled only with `--cfg rustfmt_verif`): expose the
+/// private range algebra and queries to the external harness.
+#[cfg(rustfmt_verif)]
+pub mod verif {
+    use super::*;
+
+    /// (is_empty a, a.contains(b), a.intersects(b), a.adjacent_to(b), a.merge(b))
+    pub fn range_ops(
+        a: (usize, usize),
+        b: (usize, usize),
+    ) -> (bool, bool, bool, bool, Option<(usize, usize)>) {
+        let x = Range::new(a.0, a.1);
+        let y = Range::new(b.0, b.1);
+        (
+            x.is_empty(),
+            x.contains(y),
+            x.intersects(y),
+            x.adjacent_to(y),
+            x.merge(y).map(|r| (r.lo, r.hi)),
+        )
+    }
+
+    /// The normalised ranges stored for `file_name` (no canonicalisation).
+    pub fn ranges_of(fl: &FileLines, file_name: &FileName) -> Option<Vec<(usize, usize)>> {
+        fl.0.as_ref()
+            .and_then(|m| m.get(file_name))
+            .map(|v| v.iter().map(|r| (r.lo, r.hi)).collect())
+    }
+
+    /// `FileLines::intersects` for a plain (file, lo, hi) instead of a `LineRange`.
+    pub fn intersects(fl: &FileLines, file_name: &FileName, lo: usize, hi: usize) -> bool {
+        fl.file_range_matches(file_name, |r| r.intersects(Range::new(lo, hi)))
+    }
+
+    pub fn contains_line(fl: &FileLines, file_name: &FileName, line: usize) -> bool {
+        fl.contains_line(file_name, line)
+    }
+
+    pub fn contains_range(fl: &FileLines, file_name: &FileName, lo: usize, hi: usize) -> bool {
+        fl.contains_range(file_name, lo, hi)
+    }
+}
